@@ -15,6 +15,9 @@ import (
 
 const MERGE_EPSILON = (float32)(0.6)
 
+// MAX_GRID_EXTENT is how far from the origin, in meters, the grid accepts quads.
+const MAX_GRID_EXTENT = (float32)(1024)
+
 type RegularGrid struct {
 	Resolution uint
 	PlaneCount uint32
@@ -55,6 +58,12 @@ func NewRegularGrid(numCols uint, numRows uint, resolution uint) *RegularGrid {
 func (grid *RegularGrid) InsertQuad(q Quad) {
 	minPoint := Sub(q.Center, q.Extents)
 	maxPoint := Add(q.Center, q.Extents)
+
+	// the grid grows to fit every quad: a quad with NaN or infinite coordinates,
+	// or one too far away, would make it allocate without bound.
+	if !isWithinMaxGridExtent(minPoint) || !isWithinMaxGridExtent(maxPoint) {
+		return
+	}
 
 	// fit the min & max:
 	grid.ExpandToFitPoint(&minPoint)
@@ -123,6 +132,12 @@ func (grid *RegularGrid) InsertQuad(q Quad) {
 
 		grid.PlaneCount++
 	}
+}
+
+// isWithinMaxGridExtent is false for points farther than MAX_GRID_EXTENT from
+// the origin on the ground plane, and for NaN coordinates.
+func isWithinMaxGridExtent(p Vector3f) bool {
+	return p.x >= -MAX_GRID_EXTENT && p.x <= MAX_GRID_EXTENT && p.z >= -MAX_GRID_EXTENT && p.z <= MAX_GRID_EXTENT
 }
 
 // This is a very specialized quad intersection method to work with our
